@@ -297,7 +297,10 @@ impl Scheduler {
                 queue_ready_send.send(()).ok();
 
                 // Wait for the job to complete (if cancelled, the SyncFuture was dropped, which means it's safe to continue)
-                done_recv.await.ok();
+                if let Ok(true) = done_recv.await {
+                    // The future panicked in the task that was polling it: this is a job on this queue, so the queue is panicked too
+                    panic!("The future passed to future_sync panicked");
+                }
                 send.signal(());
             }
         });
@@ -305,7 +308,7 @@ impl Scheduler {
         self.schedule_job_desync(queue, Box::new(signal_job));
 
         // The actual job is run by a SyncFuture (we box that so that it also implements Unpin)
-        SyncFuture::new(move || job().boxed(), receive, queue_ready_recv, done_send)
+        SyncFuture::new(move || job().boxed(), receive, queue, queue_ready_recv, done_send)
     }
 
     ///
